@@ -341,6 +341,24 @@ def cache_4(ctx, rep, roles):
     # the path is hashed, not used verbatim
     ok = any(isinstance(n, ast.Call) and 'sha256' in norm(n.func) and path_p and path_p[0] in norm(n) for n in walk_own(g.node))
     rep.ob('CACHE-4', CACHE, g.qual, 'sha256(str(path))', ok, 'the path component of the pickle name is not a hash of the full path')
+    # ... and an injective function of the key the memory cache uses: no normalisation may merge two paths
+    INJECTIVE = {'str', 'repr', 'bytes', 'os.fspath', 'hashlib.sha256', 'sha256'}
+    INJECTIVE_METHODS = {'encode', 'hexdigest', 'digest', 'as_posix', '__str__', '__fspath__'}
+    lossy = []
+    if path_p:
+        def wraps_path(e):
+            return any(isinstance(x, ast.Name) and x.id == path_p[0] for x in ast.walk(e))
+        for n in walk_own(g.node):
+            if isinstance(n, ast.Call) and any(wraps_path(a) for a in n.args) and norm(n.func) not in INJECTIVE \
+                    and not (isinstance(n.func, ast.Attribute) and n.func.attr in INJECTIVE_METHODS) \
+                    and norm(n.func) != 'os.path.join' and norm(n.func) != '_get_cache_directory_path':
+                lossy.append(norm(n))
+            if isinstance(n, ast.Call) and isinstance(n.func, ast.Attribute) and wraps_path(n.func.value) \
+                    and n.func.attr not in INJECTIVE_METHODS:
+                lossy.append(norm(n))
+    rep.ob('CACHE-4', CACHE, g.qual, 'path component is an injective function of the path key', not lossy,
+           'the path is normalised by %s before hashing: two different memory-cache keys can share one pickle file '
+           '(entries of different paths are confused)' % lossy[:2])
     d = prog.func(CACHE, '_get_cache_directory_path')
     ok = any(isinstance(n, ast.Call) and is_method_call(n, 'joinpath') and '_VERSION_TAG' in norm(n) for n in walk_own(d.node))
     rep.ob('CACHE-4', CACHE, d.qual, 'cache_path.joinpath(_VERSION_TAG)', ok, 'cache directory is not separated per version tag')
@@ -425,7 +443,8 @@ def cache_2_3(ctx, rep, roles):
         if qual == '_load_from_file_system':
             for t, (lab, other) in tests:
                 own_mtime = isinstance(other, ast.Call) and 'getmtime' in norm(other.func)
-                rep.ob('CACHE-3', CACHE, f.qual, norm(t.ast), not own_mtime,
+                rep.ob('CACHE-3', CACHE, f.qual, 'disk freshness: file mtime compared with %s' % (
+                    "the pickle file's own mtime" if own_mtime else norm(other)), not own_mtime,
                        "disk freshness is judged by the pickle file's own modification time, which is later than the "
                        "moment the source was read: a source change between read and save is never noticed")
     # memory variant: where is change_time sampled relative to file_io.read()?
@@ -456,7 +475,7 @@ def cache_2_3(ctx, rep, roles):
             rep.ob('CACHE-3', GRAMMAR, gp.qual, 'mtime sampled before file_io.read()', ok,
                    'the modification time handed to the cache is sampled after the content was read')
         else:
-            rep.ob('CACHE-3', CACHE, ts.qual, '%s with change_time sampled in try_to_save_module' % norm(c), False,
+            rep.ob('CACHE-3', CACHE, ts.qual, 'entry change_time sampled inside try_to_save_module (after read and parse)', False,
                    'the modification time stored with the entry is sampled after the file was read and parsed: a write '
                    'that lands in between is recorded as already seen, the stale tree is then served until the next change')
     rep.minimum('CACHE-2', 2)
